@@ -8,6 +8,13 @@ NOTES = {
  "C13-a": "escaped at first (no -0.0 in the universe); -0.0 added",
  "C15-a": "escaped at first (no key interpolation); interpolation transform added",
  "C06-a": "escaped at first (no document on which every rule SKIPs); 'not applicable' data kind added",
+ "C05-a": "escaped at first (no failing `query == query` clause with several differing values); such a rule is now part of every C05 case",
+ "C08-a": "escaped at first (no index after an interpolated key); two ill-typed shapes `c.%k[N]` added; the sub-agent also reported F35",
+ "C17-a": "escaped at first (parameter files always had distinct base names); half of the cases now use <dir-i>/params.json",
+ "C18-a": "escaped at first (regex_replace was given one matching member); 1-3 matching members among unresolved / non-string ones",
+ "C19-a": "escaped at first (backslashes in strings were excluded wholesale as F18); F18 narrowed to trim / quote / trailing backslash, which also exposed F34",
+ "C02-b": "escaped at first (one document per invocation); C02 'multi-document' and C05 'batch' stages added",
+ "C10-b": "escaped at first (documents never began with blank lines or indentation); leading whitespace added to the document layouts",
  "C09-a": "caught through the file-status law; C09 now also compares rule names with the generated programs",
 }
 rows = []
